@@ -105,6 +105,18 @@ def lock2_obsoleting(cfg):
     return r
 
 
+def lw_parts(prefixes, what):
+    """the lock-word premises that matter for one property: findings of the other LW sub-rules are that other property's business"""
+    def run(cfg):
+        r = lockword.lw(cfg)
+        kept = [x for x in r.findings if any(x.key.split('|')[-1].startswith(p_) for p_ in prefixes)]
+        if len(kept) != len(r.findings):
+            r.note('%d LW finding(s) outside %s are not reported under this property (%s)' % (len(r.findings) - len(kept), '/'.join(prefixes), what))
+        r.findings = kept
+        return r
+    return R(run)
+
+
 def _is_olc_sig(sig):
     return 'olc' in sig or ('in_critical_section' in sig and 'in_fake_critical_section' not in sig) or 'optimistic_lock' in sig
 
@@ -270,10 +282,10 @@ PROPERTIES['C09'] = {
 PROPERTIES['C14'] = {
     'level': 'other',
     'configs': two,
-    'rules': [olc('LOCK-3'), olc('LOCK-4'), olc('LOCK-7'), R(lock7a), R(lockword.lw6), R(point.lock10), R(lock2_obsoleting), R(lockword.lw)],
+    'rules': [olc('LOCK-3'), olc('LOCK-4'), olc('LOCK-7'), R(lock7a), R(lockword.lw6), R(point.lock10), R(lock2_obsoleting), lw_parts(('LW-1', 'LW-2', 'LW-3', 'LW-7'), 'memory orders, whole-word comparison and section snapshots concern linearizability - C03 / C07 - not lock release or waiting')],
     'technique': 'static analysis: relational typestate dataflow for lock order / no-wait-while-locked / guard typestate on every CFG path incl. exceptional exits of scope guards; path-sensitive effect flow (obsoletion followed by a restart result)',
     'explanation': 'No-deadlock / no-lock-left-held conditions: LOCK-3 (write ownership is only taken by non-blocking upgrade in root-to-leaf order and no waiting primitive - try_read_lock spin, spin_wait_loop_body - is reached while a guard is active, '
-                   'so no wait-for cycle can contain a writer and readers hold nothing), LOCK-4 (no operation on a guard that is not active: no double unlock / null dereference; guards are scope-bound RAII objects), LOCK-7b (sections are not validated after they ended), LOCK-7a / LW-6 (optimistic read locks are counted per node in assertion-enabled builds - the only sense in which a reader holds a node: no open section is overwritten by assignment, with per-return summaries of the helpers that end or keep the sections they are handed, and check / try_read_unlock / upgrade give the unit back on exactly the paths on which the section forgets its lock - so an operation that returns leaves no node read-locked, which would abort the later operation that frees that node), LOCK-10 (obsoletion is a point of no return: no path marks a node obsolete and then abandons the attempt with a restart result while the node is still linked - otherwise every later operation reaching that node restarts for ever although nobody holds a lock; path-sensitive effect flow with callee summaries), LOCK-2 restricted to functions that obsolete a node (the store that replaces / unlinks the obsoleted node in its parent is made under the active write guard of the parent: a store after the guard is gone can hit a slot that has moved, and the obsolete node stays linked); the lock-word premises LW-1..5 of C07 (write ownership only through write_guard and released by it, the try_read_lock wait loop leaves on an obsolete word, ...) are reported here too: the anchors of this property include the lock.',
+                   'so no wait-for cycle can contain a writer and readers hold nothing), LOCK-4 (no operation on a guard that is not active: no double unlock / null dereference; guards are scope-bound RAII objects), LOCK-7b (sections are not validated after they ended), LOCK-7a / LW-6 (optimistic read locks are counted per node in assertion-enabled builds - the only sense in which a reader holds a node: no open section is overwritten by assignment, with per-return summaries of the helpers that end or keep the sections they are handed, and check / try_read_unlock / upgrade give the unit back on exactly the paths on which the section forgets its lock - so an operation that returns leaves no node read-locked, which would abort the later operation that frees that node), LOCK-10 (obsoletion is a point of no return: no path marks a node obsolete and then abandons the attempt with a restart result while the node is still linked - otherwise every later operation reaching that node restarts for ever although nobody holds a lock; path-sensitive effect flow with callee summaries), LOCK-2 restricted to functions that obsolete a node (the store that replaces / unlinks the obsoleted node in its parent is made under the active write guard of the parent: a store after the guard is gone can hit a slot that has moved, and the obsolete node stays linked); the lock-word premises of C07 that concern release and waiting - LW-1 (write ownership only through write_guard, which deactivates itself and unlocks exactly when active), LW-2 (is_free / is_write_locked / obsolete encodings: a wrong one makes try_read_lock wait for ever), LW-3 (the try_read_lock wait loop leaves on an obsolete word), LW-7 (unlock really unlocks, unlock_and_obsolete really obsoletes) - are reported here too: the anchors of this property include the lock; the memory-order, comparison and snapshot premises (LW-4, 5, 8, 9) are not.',
     'decides': 'lock acquisition order, no-wait-while-locked, guard typestate, no restart after obsoletion',
     'does_not_decide': 'freedom from starvation / livelock (the lock header itself says readers can starve)',
 }
